@@ -258,3 +258,48 @@ Proof.
 Qed.
 
 End Core.
+
+(* the boolean fragment test used by the direct comparison implies the fragment *)
+Lemma core_rowb_ok n x : core_rowb x = true -> core_row n x.
+Proof.
+  unfold core_rowb, core_row, trig_plainb, act_plainb, noexitb. intros H.
+  apply andb_true_iff in H. destruct H as (H & Ht). apply andb_true_iff in H. destruct H as (H & Hx).
+  apply andb_true_iff in H. destruct H as (Htr & Ha).
+  split; [|split; [|split]].
+  - destruct (r_trig x) as [e| |]; try discriminate. exists e. split; [reflexivity|].
+    apply negb_true_iff in Htr. apply Nat.eqb_neq in Htr. exact Htr.
+  - destruct (r_act x); try discriminate; discriminate.
+  - destruct (r_exitpt x); [discriminate | reflexivity].
+  - destruct (r_tgt x) as [|t| |]; try discriminate; [left; reflexivity | right; exists t; reflexivity].
+Qed.
+Lemma core_irowb_ok x : core_irowb x = true -> core_irow x.
+Proof.
+  unfold core_irowb, core_irow, trig_plainb, act_plainb, noexitb. intros H.
+  apply andb_true_iff in H. destruct H as (H & Ht). apply andb_true_iff in H. destruct H as (H & Hx).
+  apply andb_true_iff in H. destruct H as (Htr & Ha).
+  split; [|split; [|split]].
+  - destruct (r_trig x) as [e| |]; try discriminate. exists e. split; [reflexivity|].
+    apply negb_true_iff in Htr. apply Nat.eqb_neq in Htr. exact Htr.
+  - destruct (r_act x); try discriminate; discriminate.
+  - destruct (r_exitpt x); [discriminate | reflexivity].
+  - destruct (r_tgt x); try discriminate. reflexivity.
+Qed.
+Lemma forallb_Forall {A} (f:A -> bool) (P:A -> Prop) l : (forall x, f x = true -> P x) -> forallb f l = true -> Forall P l.
+Proof.
+  intros H. induction l as [|x t IH]; cbn; intros E; [constructor|]. apply andb_true_iff in E. destruct E as (E1 & E2).
+  constructor; auto.
+Qed.
+Theorem coreb_core : forall mc, coreb mc = true -> core mc.
+Proof.
+  fix IH 1. intros mc. destruct mc as [states inits rows irows hist]. cbn [coreb core]. intros H.
+  apply andb_true_iff in H. destruct H as (H & Hst). apply andb_true_iff in H. destruct H as (Hr & Hi).
+  split; [eapply forallb_Forall; [|exact Hr]; intros x; apply core_rowb_ok|].
+  split; [eapply forallb_Forall; [|exact Hi]; intros x; apply core_irowb_ok|].
+  clear Hr Hi. induction states as [|st t IHt]; [exact I|].
+  destruct st as [k sub sirows defers fl z]. apply andb_true_iff in Hst. destruct Hst as (Hst & Ht).
+  apply andb_true_iff in Hst. destruct Hst as (Hst & Hk). apply andb_true_iff in Hst. destruct Hst as (Hd & Hs).
+  split; [destruct defers; [reflexivity | discriminate]|].
+  split; [eapply forallb_Forall; [|exact Hs]; intros x; apply core_irowb_ok|].
+  split; [|apply IHt; exact Ht].
+  destruct sub as [m|]; destruct k; try discriminate; [split; [reflexivity | apply IH; exact Hk] | reflexivity].
+Qed.
